@@ -1,7 +1,7 @@
 """C07 - Pool.run yields exactly one result per input under every schedule and death."""
 import ast
 
-from ..astutil import (AnalysisError, dotted, calls_in, last_attr, receiver, norm, is_name, walk_local, is_self_attr,
+from ..astutil import (canon, canon_ast, edge_fact, edge_facts, split_if, facts_at, AnalysisError, dotted, calls_in, last_attr, receiver, norm, is_name, walk_local, is_self_attr,
                        loc, short, parent_map, names_in)
 from ..cfg import is_flow, path_str
 
@@ -158,13 +158,13 @@ def run(ctx):
     g = ctx.an.cfg(te, pool)
     enq = call_nodes(g, cl.n('handle_enqueue'), 'post')
     unused = call_nodes(g, cl.n('handle_unused_data'), 'post')
-    has_tests = [n for n in g.nodes if n.kind == 'test' and isinstance(n.stmt, ast.If) and norm(n.stmt.test) == N['has_data']]
+    has_tests = [n for n in g.nodes if n.kind == 'test' and isinstance(n.stmt, ast.If) and canon(n.stmt.test)[0] == N['has_data']]
     ctx.require(has_tests, 'try_enqueue: the test on the has-data flag was not found')
-    starts = [e.dst for n in has_tests for e in n.succ if e.kind == 'true']
+    starts = [e.dst for n in has_tests for e in n.succ if edge_fact(e) == (N['has_data'], True)]
     sink = {n.id for n in enq + unused}
     # has_data is assigned once, before the loop: on these paths it stays true
     hid = {n.id for n in has_tests}
-    consistent = lambda e: is_flow(e) and not (e.src.id in hid and e.kind == 'false')
+    consistent = lambda e: is_flow(e) and not (e.src.id in hid and edge_fact(e) == (N['has_data'], False))
     p = g.find_path(starts, lambda n: n is g.exit, edge_ok=consistent, node_ok=lambda n: n.id not in sink)
     ctx.check('R1', 'try_enqueue: an input that was taken is handed to handle_enqueue or handle_unused_data on every returning path', p is None and bool(sink),
               'Pool.run.<try_enqueue>', 'input-lost', 'try_enqueue can return after taking an input from the source without recording it as pending nor as unused: the input is lost',
@@ -197,10 +197,9 @@ def run(ctx):
               'an input that could not be enqueued is not put on the retry list', where=loc(hu, hu.node))
     gu = ctx.an.cfg(hu, pool)
     ins_post = {n.id for n in gu.nodes if n.stmt is not None and n.part == 'post' and any(c in ins for c in n.calls())}
-    rt = [n for n in gu.nodes if n.kind == 'test' and 'self._retry' in norm(n.stmt.test)]
+    rt = [n for n in gu.nodes if n.kind == 'test' and canon(n.stmt.test)[0] == 'self._retry']
     if rt:
-        neg = norm(rt[0].stmt.test).startswith('not ')
-        st2 = [e.dst for n in rt for e in n.succ if e.kind == ('false' if neg else 'true')]
+        st2 = [e.dst for n in rt for e in n.succ if edge_fact(e) == ('self._retry', True)]
         p = gu.find_path(st2, lambda n: n is gu.exit, edge_ok=is_flow, node_ok=lambda n: n.id not in ins_post)
         ctx.check('R1', 'handle_unused_data: every retry-enabled path stores the input', p is None, 'Pool.run.<handle_unused_data>', 'unused-path-drops-input',
                   'with retry enabled a path of handle_unused_data drops the input', where=loc(hu, hu.node), path=path_str(p or []))
@@ -209,10 +208,10 @@ def run(ctx):
     ext = [n for n in gd.nodes if n.stmt is not None and n.part == 'post' and any(last_attr(c) == 'extend' and receiver(c) == 'self._retries' and
                                                                                    'self._pending_per_worker' in norm(c.args[0]) for c in n.calls())]
     clr = [n for n in gd.nodes if n.stmt is not None and n.part == 'eval' and any(last_attr(c) == 'clear' and 'self._pending_per_worker' in (norm(c.func.value)) for c in n.calls())]
-    rtest = [n for n in gd.nodes if n.kind == 'test' and norm(n.stmt.test) == 'self._retry']
+    rtest = [n for n in gd.nodes if n.kind == 'test' and canon(n.stmt.test)[0] == 'self._retry']
     ok = bool(ext) and bool(clr) and bool(rtest)
     if ok:
-        st3 = [e.dst for n in rtest for e in n.succ if e.kind == 'true']
+        st3 = [e.dst for n in rtest for e in n.succ if edge_fact(e) == ('self._retry', True)]
         eid = {n.id for n in ext}
         p = gd.find_path(st3, lambda n: n in clr, edge_ok=is_flow, node_ok=lambda n: n.id not in eid)
         dom = gd.dominators(edge_ok=is_flow)
@@ -295,11 +294,10 @@ def run(ctx):
     # ---------------------------------------------------------------- R4 single append site
     check_single_append(ctx, run_f, cl, N, 'R4')
     # once per flag-true message: the call of handle_new_result sits on the flag-true side
-    flag_tests = [n for n in gr.nodes if n.kind == 'test' and isinstance(n.stmt, ast.If) and norm(n.stmt.test) in ('not ' + N['flag'], N['flag'])]
+    flag_tests = [n for n in gr.nodes if n.kind == 'test' and isinstance(n.stmt, ast.If) and canon(n.stmt.test)[0] == N['flag']]
     ok = bool(flag_tests)
     if ok:
-        neg = norm(flag_tests[0].stmt.test).startswith('not ')
-        dst = {e.dst.id for n in flag_tests for e in n.succ if e.kind == ('false' if neg else 'true')}
+        dst = {e.dst.id for n in flag_tests for e in n.succ if edge_fact(e) == (N['flag'], True)}
         dom = gr.dominators(edge_ok=is_flow)
         ok = all(dom.get(n.id, set()) & dst for n in hnr_calls)
     ctx.check('R4', 'handle_new_result is called only for flag-true messages', ok, 'Pool.run', 'result-from-end-marker',
@@ -489,16 +487,13 @@ def check_frame(ctx, pool, cl):
 
 
 def dominated_by_not_closed(g, node, var=None):
-    """node is dominated by the not-closed side of a `<x>.id in/not in self._closed` test"""
+    """node is dominated by an edge that establishes `<x>.id not in self._closed` (polarity-free, also as a conjunct)"""
     dom = g.dominators(edge_ok=is_flow)
     good = set()
     for n in g.nodes:
         if n.kind == 'test' and isinstance(n.stmt, (ast.If,)) and n.part in (None, 'post'):
-            t = n.stmt.test
-            if isinstance(t, ast.Compare) and len(t.ops) == 1 and norm(t.comparators[0]) == 'self._closed' and norm(t.left).endswith('.id') \
-                    and (var is None or norm(t.left) == f'{var}.id'):
-                want = 'false' if isinstance(t.ops[0], ast.In) else ('true' if isinstance(t.ops[0], ast.NotIn) else None)
-                for e in n.succ:
-                    if e.kind == want:
+            for e in n.succ:
+                for txt, truth in edge_facts(e) if e.kind in ('true', 'false') else ():
+                    if truth is False and txt.endswith('.id in self._closed') and (var is None or txt == f'{var}.id in self._closed'):
                         good.add(e.dst.id)
     return bool(dom.get(node.id, set()) & good)
